@@ -80,4 +80,64 @@ theorem runG_once (f : V3 → V3) (vs : List (Nat × Bool)) (h : Heap) (i : Nat)
         rw [ih _ hnd.2 hv (by simp [List.length_modify]; exact hlt)]
         exact congrArg f (get_modify_ne _ _ _ _ hne)
 
+/-! ### transform, then read = read, then transform — for the point map of a shear -/
+
+mutual
+theorem resolve_shear (f : V3 → V3) (h h' : Heap) : ∀ (e : Ent),
+    (∀ v ∈ visitsE e, Heap.get h' v.1 = f (Heap.get h v.1)) →
+    resolveE h' (invalidE e) = shearV f (resolveE h e)
+  | .pt i, hv => by
+      have := hv (i, false) (by simp [visitsE])
+      simp only [invalidE, resolveE, shearV]
+      simpa using this
+  | .dir i, hv => by
+      have := hv (i, true) (by simp [visitsE])
+      simp only [invalidE, resolveE, shearV]
+      simpa using this
+  | .arr is, hv => by
+      simp only [invalidE, resolveE, shearV, List.map_map, VEnt.arr.injEq]
+      apply List.map_congr_left
+      intro i hi
+      have := hv (i, false) (by simp only [visitsE, List.mem_map]; exact ⟨i, hi, rfl⟩)
+      simpa using this
+  | .node k a ch, hv => by
+      have ih := resolve_shearL f h h' ch (by simpa [visitsE] using hv)
+      simp only [invalidE, resolveE, shearV]
+      rw [ih]
+theorem resolve_shearL (f : V3 → V3) (h h' : Heap) : ∀ (es : List Ent),
+    (∀ v ∈ visitsL es, Heap.get h' v.1 = f (Heap.get h v.1)) →
+    resolveL h' (invalidL es) = shearVL f (resolveL h es)
+  | [], _ => by simp [invalidL, resolveL, shearVL]
+  | e :: es, hv => by
+      simp only [invalidL, resolveL, shearVL]
+      rw [resolve_shear f h h' e (fun v hm => hv v (by simp [visitsL, hm])),
+        resolve_shearL f h h' es (fun v hm => hv v (by simp [visitsL, hm]))]
+end
+
+theorem resolve_shearE (f : V3 → V3) (e : Ent) (h : Heap) (hna : ((visitsE e).map Prod.fst).Nodup)
+    (hin : ∀ v ∈ visitsE e, v.1 < h.length) :
+    resolveE (shearE f e h).2 (shearE f e h).1 = shearV f (resolveE h e) := by
+  rw [shearE_tree, shearE_heap]
+  apply resolve_shear
+  intro v hv
+  exact runG_once f (visitsE e) h v.1 v.2 hna hv (hin v hv)
+
+mutual
+theorem visits_invalidE : ∀ (e : Ent), visitsE (invalidE e) = visitsE e
+  | .pt i => by simp [invalidE]
+  | .dir i => by simp [invalidE]
+  | .arr is => by simp [invalidE]
+  | .node k a ch => by simp only [invalidE, visitsE]; exact visits_invalidL ch
+theorem visits_invalidL : ∀ (es : List Ent), visitsL (invalidL es) = visitsL es
+  | [] => by simp [invalidL]
+  | e :: es => by simp only [invalidL, visitsL, visits_invalidE e, visits_invalidL es]
+end
+
+/-- NoAlias and InHeap survive a shear -/
+theorem inv_shearE (f : V3 → V3) (e : Ent) (h : Heap) (hna : ((visitsE e).map Prod.fst).Nodup)
+    (hin : ∀ v ∈ visitsE e, v.1 < h.length) :
+    ((visitsE (shearE f e h).1).map Prod.fst).Nodup ∧ ∀ v ∈ visitsE (shearE f e h).1, v.1 < (shearE f e h).2.length := by
+  rw [shearE_tree, shearE_heap, visits_invalidE]
+  exact ⟨hna, fun v hv => by rw [runG_length]; exact hin v hv⟩
+
 end CBV.C09
